@@ -20,15 +20,15 @@ TRUSTED = ['model: coq/Notif/NfModel.v (transcription of Checkable::SendNotifica
            'enable flags) and period membership are inputs of the model, set on the real objects by the harness (C08 decides periods)']
 ASSUMPTIONS = ['timestamps are whole seconds (exact in binary64)',
                'asynchronous command execution is drained after every operation instead of interleaved',
-               'an incident ends when a Recovery notification reaches Notification::BeginExecuteNotification',
-               'the local endpoint/HA branch of the timer (cx_ha) is modelled but never true in the harness (no ApiListener)']
+               'an incident ends when a Recovery notification reaches Notification::BeginExecuteNotification (unless merely withheld by the closed period) or is requested while notifications are disabled',
+               'the HA branch uses a never-started PKI-less ApiListener with a local endpoint, visible only while an op with ha=1 runs']
 
 TYPES = [1, 2, 4, 8, 16, 32, 64, 128, 256]
 ALLT = 511
 
 
 def ctx_line(c):
-    keys = ['raw', 'hard', 'lhsc', 'vol', 'gen', 'cen', 'dt', 'ack', 'reach', 'flap', 'cks', 'paused', 'auth', 'per', 'uen', 'ucl', 'cr', 'soon']
+    keys = ['raw', 'hard', 'lhsc', 'vol', 'gen', 'cen', 'dt', 'ack', 'reach', 'flap', 'cks', 'paused', 'ha', 'auth', 'per', 'uen', 'ucl', 'cr', 'soon']
     return 'nf_ctx ' + ' '.join('%s=%s' % (k, c[k]) for k in keys)
 
 
@@ -38,7 +38,7 @@ def ids(l):
 
 def base_ctx(nu):
     return {'raw': 0, 'hard': 1, 'lhsc': T0 - 1000, 'vol': 0, 'gen': 1, 'cen': 1, 'dt': 0, 'ack': 0, 'reach': 1, 'flap': 0,
-            'cks': 0, 'paused': 0, 'auth': 1, 'per': 0, 'uen': ids(range(1, nu + 1)), 'ucl': '-', 'cr': 1, 'soon': 0}
+            'cks': 0, 'paused': 0, 'ha': 0, 'auth': 1, 'per': 0, 'uen': ids(range(1, nu + 1)), 'ucl': '-', 'cr': 1, 'soon': 0}
 
 
 def new_line(cfg):
@@ -203,7 +203,8 @@ def rand_case(rnd, n, fam='random'):
             ty = 8
         for k in ('gen', 'cen', 'paused'):
             c[k] = 0 if rnd.random() < pflag / 2 else 1 if k != 'paused' else 0
-        c['paused'] = 1 if rnd.random() < pflag / 3 else 0
+        c['paused'] = 1 if rnd.random() < pflag / 2 else 0
+        c['ha'] = 1 if rnd.random() < 0.3 else 0
         c['auth'] = 0 if rnd.random() < pflag / 2 else 1
         c['reach'] = 0 if rnd.random() < pflag else 1
         c['cks'] = 1 if rnd.random() < pflag / 2 else 0
@@ -273,6 +274,45 @@ def directed(rnd, n):
         t += 10; lines += ['now %d' % t, ctx_line(c), 'nf_tick']
         t += 10; lines += ['now %d' % t, ctx_line(c), 'nf_tick']
         cases.append({'lines': lines, 'tags': {'family': 'directed-interval0'}})
+    # cold start / pause / HA: stash built while the authority is not yet updated, then ticks with paused x ha x auth;
+    # Recovery requests while notifications are disabled
+    for i in range(n):
+        kind = rnd.choice(('host', 'svc'))
+        cfg = mkcfg(kind=kind, interval=rnd.choice((0, 30)), users=((-1, -1, 0),))
+        c = base_ctx(1); t = T0
+        lines = ['now %d' % t, new_line(cfg)]
+        c['raw'] = 2; c['cr'] = 0; c['lhsc'] = t; c['auth'] = 0
+        for ty in rnd.sample((32, 8, 16, 1), rnd.randint(1, 3)):
+            c['ha'] = rnd.randint(0, 1); c['paused'] = rnd.choice((0, 0, 1))
+            lines += [ctx_line(c), 'nf_req type=%d force=%d' % (ty, rnd.choice((0, 0, 1)))]
+        for k in range(3):
+            t += rnd.choice((1, 30))
+            c['paused'] = rnd.randint(0, 1); c['ha'] = rnd.randint(0, 1); c['auth'] = rnd.choice((0, 1, 1))
+            lines += ['now %d' % t, ctx_line(c), 'nf_tick']
+            if rnd.random() < 0.4:
+                lines += [ctx_line(c), 'nf_req type=%d force=0' % rnd.choice((32, 64, 16))]
+        cases.append({'lines': lines, 'tags': {'family': 'directed-coldstart-ha'}})
+    for i in range(n):
+        kind = rnd.choice(('host', 'svc'))
+        nu = rnd.randint(1, 2)
+        cfg = mkcfg(kind=kind, interval=rnd.choice((0, 30)), users=[(-1, -1, 1)] * nu, du=range(1, nu + 1))
+        c = base_ctx(nu); t = T0
+        lines = ['now %d' % t, new_line(cfg)]
+        c['raw'] = 2; c['cr'] = 0; c['lhsc'] = t
+        lines += [ctx_line(c), 'nf_req type=32 force=0']
+        t += 10; lines.append('now %d' % t)
+        c['raw'] = 0; c['cr'] = 1; c['lhsc'] = t
+        c[rnd.choice(('gen', 'cen'))] = 0
+        lines += [ctx_line(c), 'nf_req type=64 force=%d' % (1 if rnd.random() < 0.2 else 0)]
+        c['gen'] = 1; c['cen'] = 1
+        t += 10; lines.append('now %d' % t)
+        c['raw'] = 2; c['cr'] = 0; c['lhsc'] = t
+        c['ucl'] = ids([u for u in range(1, nu + 1) if rnd.random() < 0.7])
+        lines += [ctx_line(c), 'nf_req type=32 force=0']
+        t += 5; lines.append('now %d' % t)
+        c['ucl'] = '-'; c['ack'] = 1
+        lines += [ctx_line(c), 'nf_req type=%d force=0' % rnd.choice((16, 16, 64))]
+        cases.append({'lines': lines, 'tags': {'family': 'directed-disabled-recovery'}})
     # times window boundaries
     for b, e, d in itertools.product((0, 1, 10), (0, 1, 10), (-1, 0, 1)):
         for which in ('begin', 'end'):
@@ -309,6 +349,8 @@ def nontrivial(case, impl_lines):
 def classify(case, detail, impl_lines):
     if 'crash' in detail or 'missing' in detail:
         return 'crash'
+    if 'class=stale-after-disabled-recovery' in detail:
+        return 'stale-after-disabled-recovery'
     if 'class=nomore-reset' in detail:
         return 'nomore-reset'
     return 'delivery-rule'
